@@ -638,6 +638,8 @@ class World:
         self.P = None
         self.B = {}                # recipe name -> (pickle bytes, model tokens, class index, cyc, mcls)
         self.data_is_arg = {True: 0, False: 0}
+        self.pinned_raw = set()
+        self.pinned_per_table = {}
         self.pinned = []           # [(slot, table name, mcls, args tuple, obj)]
         self.tables = {}           # table name -> dict object
         import importlib
@@ -673,9 +675,15 @@ class World:
     def table_snapshot(self):
         """{table name: sorted [(key tokens, value address)]} for every observed table."""
         out = {}
+        pinned = self.pinned_raw
         for name, d in self.tables.items():
+            if len(d) <= self.pinned_per_table.get(name, 0) and all(id(v) in pinned for v in list(d.values())):
+                out[name] = []
+                continue
             ent = []
             for k, v in list(d.items()):
+                if id(v) in pinned:       # pinned entries never change and are left out on the model side too
+                    continue
                 toks = []
                 if isinstance(k, tuple):
                     for e in k:
@@ -756,6 +764,10 @@ def warm_up_and_pin(w, rng):
     holding the last domain would keep it alive across the collection below.)"""
     _warm_up(w, rng)
     w.pinned = _collect_pins(w)
+    w.pinned_raw = {id(o) for (_, _, _, _, o) in w.pinned}
+    w.pinned_per_table = {}
+    for (_, t, _, _, _) in w.pinned:
+        w.pinned_per_table[t] = w.pinned_per_table.get(t, 0) + 1
     assert len(w.pinned) < 90, len(w.pinned)
     w.H.clear()
     w.A.clear()
@@ -1066,6 +1078,9 @@ class Run:
         w.B.clear()
         w.A.clear()
         full_collect()
+        # no cyclic garbage is left: park this run's bookkeeping (observations, requests) in the permanent
+        # generation so later collections do not traverse it (it is still freed by reference counting)
+        gc.freeze()
 
 
 def stale_request(r, args, obj, w):
